@@ -197,8 +197,11 @@ def cfg_key(cfg):
     return json.dumps(cfg, sort_keys=True, separators=(",", ":"), default=str)
 
 
-def run_configs(run: Run, modname, cfgs, cosim_cycles=16, procs=None, crash_is_violation=None):
-    """Check every configuration in a process pool and fold the results into `run`."""
+def run_configs(run: Run, modname, cfgs, cosim_cycles=16, procs=None, crash_is_violation=None, must_accept=False):
+    """Check every configuration in a process pool and fold the results into `run`.
+    must_accept: every generated configuration is valid by the documented rules (the generator only produces such), so a
+    constructor/add() that REFUSES one breaks "for every configuration ..." - reported as clause accepts_valid_configuration
+    (native, confirmed) instead of silently shrinking the explored set."""
     procs = procs or min(16, os.cpu_count() or 4)
     jobs = [(modname, cfg, cfg_key(cfg), cosim_cycles, run.seed) for cfg in cfgs]
     if len(jobs) <= 1 or os.environ.get("VERIF_SERIAL"):
@@ -212,6 +215,16 @@ def run_configs(run: Run, modname, cfgs, cosim_cycles=16, procs=None, crash_is_v
         run.configs += 1
         if "refused" in out:
             refused += 1
+            verdict = must_accept(out["cfg"]) if callable(must_accept) else must_accept
+            if verdict:
+                # a callable may return a string naming the CLASS of configuration (used as the known-finding key suffix)
+                kf = "accepts_valid_configuration" + (":" + verdict if isinstance(verdict, str) else "")
+                name = f"accepts_valid_configuration@{out['key']}"
+                run.add(name, "failed", "native evaluation", 0.0, clause="accepts_valid_configuration")
+                run.violation(name, f"a valid configuration was refused: {out['refused'][:300]}",
+                              {"config": out["cfg"], "native_replay": {"confirmed": True, "how": "constructing this configuration natively raises",
+                                                                       "exception": out["refused"][:600]},
+                               "replay_cmd": f"./check {run.prop_id} --replay <this file>"}, confirmed=True, key=kf)
         if "engine_fault" in out:
             run.engine_faults.append(f"{out['key']}: {out['engine_fault']}")
         if "crash" in out:
